@@ -61,6 +61,8 @@ pub struct Params {
     /// probability (1/1000, only consulted when `p_big_union` > 0) that a union gets 901..1100
     /// members (beyond 30 x 30, where a two-level join of groups of 30 stops being flat)
     pub p_giant_union: u32,
+    /// one lock in eight points at a solvable the provider no longer lists (`Package::lock_gone`)
+    pub lock_gone: bool,
 }
 
 impl Default for Params {
@@ -98,6 +100,7 @@ impl Default for Params {
             far_ids: 0,
             p_big_union: 0,
             p_giant_union: 0,
+            lock_gone: true,
         }
     }
 }
@@ -512,6 +515,7 @@ pub fn gen_universe(t: &mut Tape, p: &Params) -> Universe {
             sort_rank,
             favored: None,
             locked: None,
+            lock_gone: false,
             hint: Hint::None,
             unlisted,
         });
@@ -524,7 +528,13 @@ pub fn gen_universe(t: &mut Tape, p: &Params) -> Universe {
                 b.u.packages[pi].favored = Some(t.below(nc));
             }
             if t.chance(p.p_locked, 1000) {
-                b.u.packages[pi].locked = Some(t.below(nc));
+                // the low bits of the value are (nearly) independent of the chosen index
+                let v = t.next() as usize;
+                if p.lock_gone && v % 8 == 5 {
+                    b.u.packages[pi].lock_gone = true;
+                } else {
+                    b.u.packages[pi].locked = Some((v * nc) >> 16);
+                }
             }
             b.u.packages[pi].hint = match t.weighted(&p.hint_w) {
                 0 => Hint::None,
@@ -550,6 +560,15 @@ pub fn gen_universe(t: &mut Tape, p: &Params) -> Universe {
         for ci in 0..b.u.packages[pi].unlisted.len() {
             let deps = b.new_deps(t, pi);
             b.u.packages[pi].unlisted[ci].deps = deps;
+        }
+        if b.u.packages[pi].lock_gone {
+            // the version the lock names: known to the pool, not offered any more
+            b.u.packages[pi].unlisted.push(Cand {
+                sid: 0,
+                version: 200,
+                deps: Deps::empty(),
+                excluded: None,
+            });
         }
     }
     b.u
@@ -754,6 +773,7 @@ pub fn gen_conflict_free(t: &mut Tape, p: &Params, with_hints: bool) -> (Univers
             sort_rank,
             favored,
             locked,
+            lock_gone: false,
             hint,
             unlisted: vec![],
         });
